@@ -17,6 +17,7 @@ import os
 import re
 import sys
 import types
+import weakref
 import typing
 import warnings
 from inspect import getfullargspec
@@ -246,6 +247,16 @@ class _Undefined:
 
 
 Undefined = _Undefined()
+
+
+class _PartiallyInitialized(RuntimeError):
+    """A watcher was (un)registered on an object whose construction or restoration is not finished."""
+
+
+# Objects restored by __setstate__ (copy, pickle) whose sub-object
+# dependencies could not be set up yet because a sub-object that refers back
+# to them was itself still being restored: done when that one is finished
+_awaiting_subobjects = []
 
 
 class _FollowsClassDefault:
@@ -3811,7 +3822,7 @@ class Parameters:
 
     def _register_watcher(self_, action, watcher, what='value'):
         if self_.self is not None and not self_.self._param__private.initialized:
-            raise RuntimeError(
+            raise _PartiallyInitialized(
                 '(Un)registering a watcher on a partially initialized Parameterized instance '
                 'is not allowed. Ensure you have called super().__init__(**) in the '
                 'Parameterized instance constructor before trying to set up a watcher.',
@@ -5632,7 +5643,17 @@ class Parameterized(metaclass=ParameterizedMetaclass):
         # Set up again the watchers of depends(..., watch=True) methods on
         # the parameters of the sub-objects of this (new) object
         if any(dynamic for *_, dynamic in type(self).param._depends['watch']):
-            self.param._update_deps()
+            _awaiting_subobjects.append(weakref.ref(self))
+        for ref in list(_awaiting_subobjects):
+            obj = ref()
+            try:
+                if obj is not None:
+                    obj.param._update_deps()
+            except _PartiallyInitialized:
+                # (one of its sub-objects is the object whose restoration
+                # brought this one about, see above)
+                continue
+            _awaiting_subobjects.remove(ref)
 
     @_recursive_repr()
     def __repr__(self):
